@@ -21,13 +21,19 @@ RULE = ("generated units over all four control/calibration presence combinations
         "non-trivial = >=2 states whose sort order differs from declaration order, or a rectangular Jacobian, or control/calibration present; "
         "boundary noises (fixed inputs): filters with 1-, 2- and 3-reading sensors in which some or all readings have a configured noise of "
         "exactly zero (0, 0.0, -0.0: a fully trusted reading) next to non-zero ones, and a control with zero process noise, with and without "
-        "control/calibration, CSE on and off - every noise-covariance entry must equal the configured value by name")
+        "control/calibration, CSE on and off - every noise-covariance entry must equal the configured value by name; "
+        "numbered readings (fixed inputs): filters whose sensors have 2, 3 and 12 readings named with numbers of different widths (r2/r10, "
+        "beam_9/beam_10/beam_11, c1..c12, ch3/ch20/ch100) so that alphabetical and numeric order of the names disagree, over all four "
+        "control/calibration combinations, CSE on and off - prediction, Jacobian row and noise entry of every reading by name")
 NOTE = ["'compiles' = exit status of g++ -std=c++20 against the Eigen stand-in (real Eigen/clang are absent)",
         "translator: generated source text -> function bodies -> Programs (cparse.py); obligations: checkprog / checkjac in the Lean driver at "
         "4 rational points per block (randomised identity test) + single-assignment/ordering (WellScoped)",
         "oracle: sympy evaluation / sympy diff by name",
         "zero-noise stream: the configured numbers themselves are the oracle (diagonal entry of a reading/control = its configured noise, 0 "
-        "stays 0; off-diagonal 0); counters zero_noise_reading / zero_noise_control / zero_noise_unit"]
+        "stays 0; off-diagonal 0); counters zero_noise_reading / zero_noise_control / zero_noise_unit",
+        "numbered-readings stream: oracle = sympy value / sympy diff / configured noise of the reading whose named accessor is bound to that "
+        "data row (the binding itself is read from the compiled header); pairwise distinct noises and expressions per reading; counters "
+        "numbered_reading_unit / numbered_reading_sensor / numbered_reading_reading"]
 PARTIAL = ["g++ and the stand-in instead of clang+Eigen; ccode printer outside the model"]
 
 
@@ -331,6 +337,92 @@ def zero_noise_stream(ctx):
         check_unit(ctx, None, None, d, process, sensor, pts, exe, cfgdesc, noise_tag=":zero-noise")
 
 
+def numbered_units():
+    """FIXED filters whose sensors have NUMBERED readings with numbers of different widths (r2 / r10, beam_9 / beam_10, c1..c12), so the
+    alphabetical order of the reading names differs from their numeric order: (definition, process noise, sensor noise, calibration
+    values, points, cse).  Every reading of a sensor has its own expression and its own noise."""
+    dt = sympy.Symbol("dt")
+    out = []
+    # control + calibration, CSE on: a 2-reading array (r2, r10) next to an unnumbered 1-reading sensor
+    x, y, v, a, w, b = sympy.symbols("x y v a w b")
+    d = gen.Definition(dt, [y, x, v], [w, a], [b],
+                       {x: x + v * dt + b, y: y + dt * w + a / 4, v: v + a * dt - x * y / 8},
+                       {"array": {"r2": 2 * x + b + y * v, "r10": 10 * v + y * y},
+                        "odom": {"speed": v * v + 3 * v + x}})
+    process = {"a": F(1, 4), "w": F(5, 8)}
+    sensor = {"array": {"r2": F(1, 8), "r10": F(3, 2)}, "odom": {"speed": F(7, 8)}}
+    cal = {"b": F(3, 8)}
+    pts = [{"dt": F(1, 8), "cal": cal, "control": {"a": F(1, 2), "w": F(-3, 4)}, "state": {"x": F(5, 4), "y": F(-1, 2), "v": F(3, 2)}},
+           {"dt": F(1, 16), "cal": cal, "control": {"a": F(-2), "w": F(1, 4)}, "state": {"x": F(-3, 4), "y": F(2), "v": F(1, 4)}}]
+    out.append((d, process, sensor, cal, pts, True))
+    # neither control nor calibration, CSE off: beam_9 / beam_10 / beam_11 and a ring of twelve numbered channels c1..c12
+    p, q = sympy.symbols("p q")
+    ring = {f"c{k}": k * p + (13 - k) * q * q + (k % 3) * p * q for k in range(1, 13)}
+    d = gen.Definition(dt, [q, p], [], [], {p: p + dt * q, q: q - dt * p / 2},
+                       {"lidar": {"beam_10": p * p + q, "beam_9": p - 2 * q, "beam_11": 3 * p * q + p},
+                        "ring": ring})
+    sensor = {"lidar": {"beam_9": F(1, 4), "beam_10": F(9, 8), "beam_11": F(5, 2)},
+              "ring": {f"c{k}": F(k, 8) for k in range(1, 13)}}
+    pts = [{"dt": F(1, 4), "cal": {}, "control": {}, "state": {"p": F(3, 2), "q": F(-5, 4)}},
+           {"dt": F(1, 16), "cal": {}, "control": {}, "state": {"p": F(-1, 2), "q": F(7, 4)}}]
+    out.append((d, {}, sensor, {}, pts, False))
+    # control only, CSE off: the 2-reading array again (declared r10 first), with other expressions
+    s0, s1, u0 = sympy.symbols("s0 s1 u0")
+    d = gen.Definition(dt, [s0, s1], [u0], [], {s0: s0 + dt * s1 + u0, s1: s1 + dt * u0 * u0},
+                       {"array": {"r10": s0 * s1 + 10 * s1, "r2": 2 * s0 - s1}, "one": {"z": s1 * s1 + s0}})
+    sensor = {"array": {"r10": F(3, 4), "r2": F(1, 16)}, "one": {"z": F(3, 2)}}
+    pts = [{"dt": F(1, 2), "cal": {}, "control": {"u0": F(3, 4)}, "state": {"s0": F(1, 4), "s1": F(-3, 2)}},
+           {"dt": F(1, 8), "cal": {}, "control": {"u0": F(-1, 4)}, "state": {"s0": F(-7, 4), "s1": F(5, 8)}}]
+    out.append((d, {"u0": F(3, 8)}, sensor, {}, pts, False))
+    # calibration only, CSE on: channel numbers of one, two and three digits
+    g, h, k = sympy.symbols("g h k")
+    d = gen.Definition(dt, [h, g], [], [k], {g: g + dt * h * k, h: h + k / 2},
+                       {"sonar": {"ch20": g * h + k, "ch3": g - 3 * h, "ch100": g * g + 100 * h + k * h}})
+    sensor = {"sonar": {"ch3": F(3, 8), "ch20": F(5, 2), "ch100": F(25, 2)}}
+    cal = {"k": F(-5, 8)}
+    pts = [{"dt": F(3, 8), "cal": cal, "control": {}, "state": {"g": F(9, 4), "h": F(-1, 4)}},
+           {"dt": F(1, 32), "cal": cal, "control": {}, "state": {"g": F(-3, 2), "h": F(11, 8)}}]
+    out.append((d, {}, sensor, cal, pts, True))
+    return out
+
+
+def _numeric_name_key(name):
+    return [int(t) if t.isdigit() else t for t in re.split(r"(\d+)", name)]
+
+
+def numbered_readings_stream(ctx):
+    """prediction, Jacobian row and noise entry of every reading sit in the slot named for that reading when the reading names are
+    numbered and their alphabetical order differs from their numeric order"""
+    import random
+    prng = random.Random(20802)
+    jobs, metas = [], []
+    for i, (d, process, sensor, cal, pts, cse) in enumerate(numbered_units()):
+        d._kind = "ekf"
+        cfgdesc = {"def": d.describe(), "kind": "ekf", "cse": cse, "noise": {k_: str(v_) for k_, v_ in process.items()},
+                   "sensor_noise": {k_: {r_: str(v_) for r_, v_ in rd.items()} for k_, rd in sensor.items()},
+                   "max_dt_sec": 0.1, "innovation_filtering": None, "stream": "numbered-readings"}
+        try:
+            g = cppgen.generate(d, process, sensor, cal, ctx.scratch, f"nr{i}e", cse=cse, kind="ekf", rng=prng, container="list",
+                                max_dt=0.1, filtering=None)
+        except Exception as e:
+            ctx.case(cfgdesc, True)
+            ctx.fail(f"cpp-generate-raises:ekf:numbered-readings:{fk.exc_kind(e)}", f"C++ generation refuses a filter with numbered readings: {e!r}"[:300], cfgdesc)
+            continue
+        jobs.append((g, d, None))
+        metas.append((d, process, sensor, pts, cfgdesc))
+    for (d, process, sensor, pts, cfgdesc), (exe, err) in zip(metas, cppgen.build_many(jobs)):
+        if exe is None:
+            ctx.case(cfgdesc, True)
+            ctx.fail("generated-cpp-does-not-compile:ekf:numbered-readings", "generated header/source do not compile: " + err[-600:], cfgdesc)
+            continue
+        ctx.count("numbered_reading_unit")
+        for rd in d.sensors.values():
+            if sorted(rd) != sorted(rd, key=_numeric_name_key):
+                ctx.count("numbered_reading_sensor")
+                ctx.count("numbered_reading_reading", len(rd))
+        check_unit(ctx, None, None, d, process, sensor, pts, exe, cfgdesc, noise_tag=":numbered-readings")
+
+
 def run(ctx):
     audit = core.lean_audit("C02")
     drv = core.Driver()
@@ -382,6 +474,7 @@ def run(ctx):
         translator_obligations(ctx, drv, pending, dd, g, process, sensor, cfgdesc)
     settle(ctx, drv.run(), pending)
     zero_noise_stream(ctx)      # fixed inputs; runs after every seeded stream
+    numbered_readings_stream(ctx)   # fixed inputs; appended after the zero-noise stream
     return core.finish(ctx, audit, NOTE, RULE, PARTIAL)
 
 
